@@ -188,6 +188,12 @@ var c28MatchingConds = []map[string]any{
 	{"Field": "nope", "Operator": "not-exists"},
 	{"Operator": "has-root-span", "Value": true},
 	{"Fields": []any{"missing", "service.name"}, "Operator": "starts-with", "Value": "n"},
+	{"Field": "root.service", "Operator": "=", "Value": "s"},
+	{"Field": "root.missing", "Operator": "not-exists"},
+	{"Fields": []any{"root.missing", "root.http.status"}, "Operator": "exists"},
+	{"Field": "nested.b", "Operator": "exists"},
+	{"Field": "nested.c.d", "Operator": "=", "Value": "deep"},
+	{"Field": "root.nested.b", "Operator": "not-exists"},
 }
 
 func c28Condition(r *rand.Rand) map[string]any {
@@ -567,10 +573,22 @@ func c28Traces() []*types.Trace {
 		}
 		return tr
 	}
-	out = append(out, mk("t-one", map[string]any{"a": "x", "http.status": 200, "service": "s", "service.name": "n", "": "empty"},
+	out = append(out, mk("t-one", map[string]any{"a": "x", "http.status": 200, "service": "s", "service.name": "n", "": "empty",
+		"nested": map[string]any{"b": 1, "c": map[string]any{"d": "deep"}}, "json": `{"k":{"v":2}}`},
 		map[string]any{"a": 1.5, "trace.parent_id": "p", "r": true}))
 	out = append(out, mk("t-two", map[string]any{"http.status": "500", "root": nil, " ": 3}))
 	out = append(out, mk("", map[string]any{"x": []any{1, "a"}}))
+	// ROOTLESS traces (the trace timed out / was ejected before its root arrived): RootSpan stays nil
+	rootless := func(tr *types.Trace) *types.Trace {
+		tr.RootSpan = nil
+		for _, sp := range tr.GetSpans() {
+			sp.IsRoot = false
+		}
+		return tr
+	}
+	out = append(out, rootless(mk("t-rootless", map[string]any{"a": "x", "trace.parent_id": "p1", "service": "s", "http.status": 200,
+		"nested": map[string]any{"b": 1}}, map[string]any{"trace.parent_id": "p2", "service.name": "n"})))
+	out = append(out, rootless(mk("t-rootless-bare", map[string]any{"trace.parent_id": "p3"})))
 	return out
 }
 
@@ -608,12 +626,13 @@ func c28BuildAndDecide(cfg config.Config, res *c28Result, tids []string) {
 					if rule == nil {
 						continue
 					}
-					for _, strip := range []bool{false, true} {
+					for variant := 0; variant < 3; variant++ {
+						// 0: own conditions, nested-field lookup off; 1: own conditions, nested-field lookup on; 2: no conditions
 						one := &config.RulesBasedSamplerRule{Name: rule.Name, SampleRate: rule.SampleRate, Drop: rule.Drop, Scope: rule.Scope, Sampler: rule.Sampler}
-						if !strip {
+						if variant < 2 {
 							one.Conditions = rule.Conditions
 						}
-						rs := &sample.RulesBasedSampler{Config: &config.RulesBasedSamplerConfig{Rules: []*config.RulesBasedSamplerRule{one}, CheckNestedFields: rc.CheckNestedFields},
+						rs := &sample.RulesBasedSampler{Config: &config.RulesBasedSamplerConfig{Rules: []*config.RulesBasedSamplerRule{one}, CheckNestedFields: variant == 1},
 							Logger: &logger.NullLogger{}, Metrics: &metrics.NullMetrics{}, SamplerFactory: f}
 						if rs.Start() != nil {
 							continue
